@@ -320,7 +320,7 @@ def run_shard(job: dict[str, Any]) -> dict[str, Any]:
     return chk.to_result()
 
 
-def main(tier: str, seed: int) -> int:
+def _run(tier: str, seed: int) -> Check:
     chk = Check(PID, tier, seed, level=CATEGORY, rule=RULE)
     chk.require(
         "selected_element_compared",
@@ -336,16 +336,36 @@ def main(tier: str, seed: int) -> int:
         "zero-length header value: proxy_required and invalid_credential both accepted; ';'-only / '='-less strings are arbitrary strings (totality only)",
         "None and '' are treated as the same field value",
     ]
-    nsh = shard.ncpu()
-    g = 2500 if tier == "quick" else 60000
-    a = 1500 if tier == "quick" else 30000
+    g = 2500 if tier == "quick" else 300000
+    a = 1500 if tier == "quick" else 100000
+    nj = 8 if tier == "quick" else 32  # fixed shard count: results do not depend on the worker count
     jobs = [
-        {"tier": tier, "seed": seed * 1000 + i, "fixed": i == 0, "grammar": g // nsh + 1, "arbitrary": a // nsh + 1}
-        for i in range(nsh)
+        {"tier": tier, "seed": seed * 1000 + i, "fixed": i == 0, "grammar": g // nj + 1, "arbitrary": a // nj + 1}
+        for i in range(nj)
     ]
     for res in shard.pmap("checks.c43", "run_shard", jobs, timeout=600 if tier == "quick" else 2400):
         chk.merge(res)
     chk.exhaustive["fixed missing/empty headers"] = True
     chk.exhaustive["grammar-generated headers"] = False
     chk.exhaustive["arbitrary strings"] = False
-    return chk.finish()
+    return chk
+
+
+def main(tier: str, seed: int) -> int:
+    return _run(tier, seed).finish()
+
+
+def replay(path: str) -> int:
+    """Re-execute the run (tier, seed) recorded in a replay file; the recorded mechanism key must fire again."""
+    import json
+
+    with open(path) as fh:
+        rec = json.load(fh)
+    chk = _run(rec["tier"], int(rec["seed"]))
+    v = chk.violations.get(rec["key"])
+    if v is not None:
+        print(f"VIOLATION property={PID} replay={path}")
+        print(f"  key={rec['key']}: reproduced ({v['count']}x): {v['what']}")
+        return 1
+    print(f"INCONCLUSIVE property={PID} reason=replay of {rec['key']} did not reproduce (other keys: {sorted(chk.violations)})")
+    return 2
